@@ -33,7 +33,7 @@ from pathlib import Path
 
 from src.core.base import BaseLintContext, BaseLintRule
 from src.core.constants import HEADER_SCAN_LINES, IgnoreDirective, Language
-from src.core.linter_utils import path_in_project
+from src.core.linter_utils import load_linter_config, path_in_project
 from src.core.types import Severity, Violation
 from src.linter_config.ignore import get_ignore_parser
 from src.linter_config.rule_matcher import rule_matches
@@ -151,16 +151,14 @@ class StatelessClassRule(BaseLintRule):  # thailint: ignore[srp,dry]
         Returns:
             StatelessClassConfig instance
         """
-        if not hasattr(context, "config") or context.config is None:
-            return StatelessClassConfig()
+        config_dict = getattr(context, "config", None)
+        if isinstance(config_dict, dict):
+            # Check for stateless-class specific config
+            linter_config = config_dict.get("stateless-class", config_dict)
+            return StatelessClassConfig.from_dict(linter_config)
 
-        config_dict = context.config
-        if not isinstance(config_dict, dict):
-            return StatelessClassConfig()
-
-        # Check for stateless-class specific config
-        linter_config = config_dict.get("stateless-class", config_dict)
-        return StatelessClassConfig.from_dict(linter_config)
+        # Section of the project configuration handed over by the orchestrator
+        return load_linter_config(context, "stateless-class", StatelessClassConfig)
 
     def _is_file_ignored(self, context: BaseLintContext, config: StatelessClassConfig) -> bool:
         """Check if file matches ignore patterns.
